@@ -331,14 +331,17 @@ def check_rs(world, case):
         try:
             r = readspec(*args, **kw)
         except Exception as e:
-            if 'run1d' in world.kwargs and 'mjd' not in kw:
-                trig.append('mjd-omitted+run1d-kwarg')
-            elif 'fiber' not in kw:
-                trig.append('fiber-omitted')
-            elif 'mjd' not in kw and any(p > 9999 for p, m, f in req):
-                trig.append('mjd-omitted+plate>9999')
-            t = ':' + '+'.join(trig) if trig else ''
-            if not trig and world.loc == 'topdir':
+            omitted = 'mjd' not in kw or 'fiber' not in kw
+            t = ''
+            if isinstance(e, TypeError) and 'run1d' in world.kwargs and omitted:
+                t = ':run1d-kwarg-with-mjd-or-fiber-omitted'
+            elif isinstance(e, AttributeError) and omitted and any(p > 9999 for p, m, f in req):
+                t = ':plate>9999-with-mjd-or-fiber-omitted'
+            elif isinstance(e, ValueError) and 'fiber' not in kw:
+                t = ':fiber-omitted'
+            elif trig:
+                t = ':' + '+'.join(trig)
+            elif world.loc == 'topdir':
                 t = ':topdir-kwarg'
             return [('readspec:exception:%s%s' % (type(e).__name__, t), '%r for %s' % (e, case))], 'exc', nontrivial
     bad = []
@@ -462,11 +465,11 @@ def check_helper(world, case):
                     bad.append(('number_of_fibers:not-platelist-value-per-request', 'got %s expected %s' % (got.tolist(), exp)))
         except Exception as e:
             trig = ''
-            if 'run1d' in world.kwargs and fn == 'number_of_fibers':
+            if isinstance(e, TypeError) and 'run1d' in world.kwargs and fn == 'number_of_fibers':
                 trig = ':run1d-kwarg'
-            elif fn in ('number_of_fibers', 'latest_mjd') and any(p > 9999 for p in plates):
+            elif isinstance(e, AttributeError) and fn in ('number_of_fibers', 'latest_mjd') and any(p > 9999 for p in plates):
                 trig = ':plate>9999'
-            elif fn == 'number_of_fibers' and any(world.latest(p) >= 55025 for p in plates):
+            elif isinstance(e, ValueError) and fn == 'number_of_fibers' and any(world.latest(p) >= 55025 for p in plates):
                 trig = ':mjd>=55025'
             return [('%s:exception:%s%s' % (fn, type(e).__name__, trig), repr(e))], 'exc', True
     nt = len(set(plates)) > 1 or len(plates) > len(set(plates))
